@@ -372,9 +372,15 @@ fn get_targets_root_only(
         )
     } else {
         let current_dir = env::current_dir()?.canonicalize()?;
+        // Like cargo, take the manifest of the nearest directory at or above the current one, so
+        // that `cargo fmt` also works from a subdirectory of a workspace member.
+        let manifest_dir = current_dir
+            .ancestors()
+            .find(|dir| dir.join("Cargo.toml").is_file())
+            .unwrap_or(&current_dir);
         (
             workspace_root_path == current_dir,
-            current_dir.join("Cargo.toml"),
+            manifest_dir.join("Cargo.toml"),
         )
     };
 
